@@ -37,17 +37,22 @@ SBV_ASSUME = [
 PROPERTIES["C12"] = {
     "level": "other",
     "level_text": "bounded symbolic verification: for EVERY list of n distinct symbolic sample indices and EVERY behaviour of the random source (each std::uniform_int_distribution draw is an arbitrary value of its range, so every permutation std::shuffle can produce and every with-replacement selection is covered) the real k-fold / random splitters and the index samplers return sorted, disjoint, covering index sets of the promised sizes; solver verdict per obligation on every path of the real code",
-    "level_note": SBV_NOTE,
-    "technique": SBV_TECH,
+    "level_note": SBV_NOTE + "; " + SRE_NOTE,
+    "technique": SBV_TECH + "; ball sampling (unit C12_ball, real arithmetic) by " + SRE_TECH,
     "explanation": "C12: kfold_splitter_t::split, random_splitter_t::split, sample_without_replacement, sample_with_replacement (uniform and weighted), gboost::sampler_t::sample (all four sub-sampling types) executed symbolically from their bitcode (std::shuffle, Eigen segment copies, std::sort, tensor storage as compiled).",
     "assumptions": SBV_ASSUME + ["contract: std::uniform_int_distribution<T>::operator()(rng, param) returns an arbitrary value of [param.a, param.b] (replaces the pseudo-random engine: 'any seed' becomes 'any draw sequence')",
                                  "sample indices: distinct symbolic int64 in [0, 10^6], given in arbitrary order (ordered=0) or increasing order",
                                  "contract: std::discrete_distribution<T>::operator()(rng, param) returns an arbitrary index of POSITIVE probability (the standard's distribution; libstdc++ returns index 0 of zero weight only if generate_canonical yields exactly 0.0, i.e. two consecutive minimal draws, which minstd_rand cannot produce) - so the zero-weight clause is verified for libnano's code AROUND the distribution: construction from the weights, alignment of weights with samples (gboost sampler: weights per dataset sample, looked up through the sample list), mapping of the drawn position to the sample index"],
     "bounds": {"n": "3..6 samples with symbolic indices and arbitrary draws; size clause of the random splitter: n in {7,20,25,40} (quick) / every n in 2..40 (thorough) with EVERY train percentage 10..90 symbolic", "folds": "2..3", "count": "<= n"},
     "outside": ["'equal seeds give equal splits' (the random engine is replaced by the contract; determinism of minstd_rand is not examined)",
-                "the arithmetic inside std::discrete_distribution (replaced by its contract) and points sampled from a ball (normal variates, sqrt: floating point beyond this engine)",
+                "the arithmetic inside std::discrete_distribution (replaced by its contract); ball sampling is decided over the reals for arbitrary draws (unit C12_ball): floating-point rounding of the normalisation and the all-zero direction (probability zero) are outside",
                 "weighted modes: the zero / positive weight pattern and (gboost sampler) the subset are enumerated by forking, the positive weights themselves are fixed numbers", "n > 6"],
     "units": [
+        {"engine": "sre", "harness": "C12_ball", "sources": ["C12_ball.cpp"],
+         "quick": ["n=1", "n=2", "n=3"],
+         "thorough": ["n=1", "n=2", "n=3", "n=4", "n=5"],
+         "budget": {"quick": {"deadline_s": 60, "max_paths": 4000, "query_s": 15}, "thorough": {"deadline_s": 600, "max_paths": 50000, "query_s": 60}},
+         "encoded": ["nano::sample_from_ball(x0, radius, rng) with std::normal_distribution<double>::operator() and std::generate_canonical<double, 53, rng_t> replaced by arbitrary values of their range (link-time), std::pow ackermannised with its range facts, Eigen lpNorm<2>"]},
         {"engine": "sbv", "harness": "C12_split", "sources": ["C12_split.cpp"],
          "quick": ["mode=kfold;n=4;folds=2", "mode=kfold;n=5;folds=2", "mode=kfold;n=3;folds=3", "mode=kfold;n=4;folds=3;ordered=1", "mode=random;n=4;folds=2;perc=80",
                    "mode=random;n=3;folds=2;perc=10", "mode=without;n=4;count=2", "mode=without;n=4;count=4", "mode=without;n=4;count=0", "mode=with;n=3;count=3", "mode=with;n=4;count=2",
@@ -478,7 +483,7 @@ PROPERTIES["C15"] = {
                                  "LIFT-C unit: payload length <= 3 elements (uint8: <= 4)"],
     "bounds": {"ranks": "1..3", "dims": "0..3 per axis (negative dims in dedicated configurations)", "buffer length": "<= 48 bytes", "scalar types": "int8, uint8, uint16, int32, int64, float32, float64",
                "LIFT-C": "<= 3 elements (uint8: 4), unwind 4..6"},
-    "outside": ["serialization of whole models (linear, gboost): not covered (features: unit C15_objects mode=feature; fitted weak learners: unit C15_wlearners); parameters, strings and configurable objects (solvers) are covered by unit C15_objects for round trip and prefix rejection",
+    "outside": ["models produced by fit() (unit C15_models installs the fitted state - bias, weak learners of four kinds with symbolic coefficients, weights - and checks bit-identical predictions of the re-read model; features: unit C15_objects mode=feature; fitted weak learners: unit C15_wlearners); parameters, strings and configurable objects (solvers) are covered by unit C15_objects for round trip and prefix rejection",
                 "bit-identical predictions of re-read models", "file-backed or refilling stream buffers", "tensors with more than 8 elements",
                 "known finding: a single-byte alteration of a NON-final element can keep the hash (hash_combine not injective in its seed); covered by the LIFT-C unit and recorded in known_findings.jsonl"],
     "units": [
@@ -504,6 +509,12 @@ PROPERTIES["C15"] = {
          "budget": {"quick": {"deadline_s": 100, "max_paths": 20000, "query_s": 20}, "thorough": {"deadline_s": 900, "max_paths": 200000, "query_s": 60}},
          "encoded": ["nano::write(std::ostream&, tensor_t)", "nano::read(std::istream&, tensor_t)", "nano::write / write_cast / read / read_cast (core/stream.h)", "nano::detail::hash, hash_combine, hash_version",
                      "tensor_t::resize / tensor_vector_storage_t (Eigen storage)", "std::istream::read, std::ostream::write, basic_ios::clear/setstate (native libstdc++ on concrete stream state)"]},
+        {"engine": "sbv", "harness": "C15_models", "sources": ["C15_models.cpp", "sbv_support.cpp"], "flags": ["-fno-access-control"],
+         "quick": ["model=linear;step=4", "model=gboost;wl=4", "model=gboost;wl=2;step=3"],
+         "thorough": ["model=linear;step=1", "model=gboost;wl=4;step=4", "model=gboost;wl=3;step=1", "model=gboost;wl=1;step=1"],
+         "budget": {"quick": {"deadline_s": 150, "max_paths": 20000, "query_s": 20}, "thorough": {"deadline_s": 1200, "max_paths": 200000, "query_s": 60}},
+         "encoded": ["nano::gboost_model_t::{write, read, do_predict}, nano::learner_t::{write, read, critical_compatible}, nano::read / write of rwlearners_t through the weak-learner factory",
+                     "nano::{affine, stump, dtree, dense_table}_wlearner_t::{write, read, do_predict} with symbolic coefficients / thresholds", "nano::linear_t::{write, read, do_predict} with symbolic weights and bias", "nano::feature_t::{write, read}"]},
         {"engine": "sbv", "harness": "C15_objects", "sources": ["C15_objects.cpp"],
          "quick": ["mode=param;kind=f", "mode=param;kind=f;lt=1;ltmax=1", "mode=param;kind=i", "mode=param;kind=i;lt=1", "mode=param;kind=fp", "mode=param;kind=ip", "mode=param;kind=e",
                    "mode=string;len=4", "mode=string;len=0", "mode=config;id=gd", "mode=config;id=lbfgs;step=11",
@@ -766,7 +777,7 @@ PROPERTIES["C18"] = {
                     "atomic release / acquire edges are joined per address (over-approximation of release sequences: may hide a race, never reports a false one)"],
     "bounds": {"threads": "T <= 3 harness threads, K <= 3 pool workers", "samples": "n <= 6 (batch 2: <= 3 tasks per loop)", "solver budget": "max_evals 30..40, d <= 3",
                "schedules": "preemption bound 1 (quick) / 2 (thorough); switches at blocking operations are free (unit C18_tune: at most 2 / 3 forking choices at blocking operations per path, then the lowest-numbered runnable thread continues); configurations are exhaustive within the bounds unless the evidence says truncated"},
-    "outside": ["whole fit() of linear / gradient-boosting models (the shared pieces - tuning driver with a recording model callback, dataset iterators, objectives, weak-learner fitting, solver - are covered one by one)", "gradient-sampling solvers (randomised)", "races inside native library bodies", "more than 3 threads / workers, schedules beyond the preemption bound", "weak memory effects beyond the happens-before relation (an unordered pair is reported, its possible outcomes are not enumerated)", "CPU affinity, timing"],
+    "outside": ["whole fit() of models beyond the explored schedules (unit C18_fit runs linear and gradient-boosting fit() end to end on 12..24 samples, its exploration is cut by the budget; the shared pieces - tuning driver with a recording model callback, dataset iterators, objectives, weak-learner fitting, solver - are covered one by one)", "gradient-sampling solvers (randomised)", "races inside native library bodies", "more than 3 threads / workers, schedules beyond the preemption bound", "weak memory effects beyond the happens-before relation (an unordered pair is reported, its possible outcomes are not enumerated)", "CPU affinity, timing"],
     "units": [
         {"engine": "sbv", "harness": "C18_shared", "sources": ["C18_shared.cpp"], "replay_with": "interpreter",
          "witness": ["mode=selftest;T=2"], "witness_label": "no data race",
@@ -774,12 +785,13 @@ PROPERTIES["C18"] = {
                   ["mode=solver;T=3;solver=lbfgs;fn=rosenbrock;d=3;evals=40", "mode=solver;T=2;solver=cgd-pr;fn=sphere;d=2", "mode=solver;T=2;solver=bfgs;fn=sphere;d=2", "mode=solver;T=2;solver=ellipsoid;fn=sphere;d=2",
                    "mode=solver;T=2;solver=osga;fn=sphere;d=2", "mode=solver;T=2;solver=rqb;fn=maxq;d=3;evals=40", "mode=solver;T=2;solver=fpba1;fn=sphere;d=2"] +
                   ["mode=views;T=2;K=2;n=6", "mode=iter;K=2;n=6;batch=2", "mode=iter;K=2;n=6;batch=2;cache=1", "mode=linear;K=2;n=4;batch=2", "mode=gboost;K=2;n=4;batch=2"] +
-                  ["mode=wlearner;K=2;n=6;T=2;wl=%s" % w for w in ("stump", "dense-table", "dtree")],
+                  ["mode=wlearner;K=2;n=6;T=2;wl=%s" % w for w in ("stump", "dtree")] + ["mode=wlearner;K=2;n=10;T=2;wl=%s" % w for w in ("dense-table", "ksplit-table")],
          "thorough": ["mode=loss;T=3;n=3;loss=%s" % l for l in _LOSSES] +
                      ["mode=solver;T=2;solver=%s;fn=sphere;d=2" % s for s in _C18_SOLVERS] + ["mode=solver;T=3;solver=lbfgs;fn=rosenbrock;d=3;evals=40", "mode=solver;T=2;solver=rqb;fn=maxq;d=3;evals=40", "mode=solver;T=3;solver=cgd-pr;fn=trid;d=3;evals=40"] +
                      ["mode=views;T=2;K=2;n=6", "mode=views;T=3;K=2;n=6", "mode=iter;K=2;n=6;batch=2", "mode=iter;K=3;n=6;batch=2", "mode=iter;K=2;n=6;batch=2;cache=1", "mode=iter;K=2;n=6;batch=1",
                       "mode=linear;K=2;n=6;batch=2", "mode=linear;K=2;n=6;batch=2;loss=m-hinge", "mode=linear;K=3;n=6;batch=2", "mode=gboost;K=2;n=6;batch=2", "mode=gboost;K=3;n=6;batch=2;loss=s-classnll"] +
-                     ["mode=wlearner;K=2;n=6;T=2;wl=%s" % w for w in ("affine", "stump", "hinge", "dense-table", "dstep-table", "kbest-table", "ksplit-table", "dtree")],
+                     ["mode=wlearner;K=2;n=6;T=2;wl=%s" % w for w in ("affine", "stump", "hinge", "dense-table", "dstep-table", "kbest-table", "ksplit-table", "dtree")] +
+                     ["mode=wlearner;K=%d;n=10;T=2;wl=%s" % (k, w) for k in (2, 3) for w in ("dense-table", "dstep-table", "kbest-table", "ksplit-table")],
          "env": {"SBV_PREEMPT": "1", "SBV_RACE": "1"}, "env_tier": {"thorough": {"SBV_PREEMPT": "2"}},
          "budget": {"quick": {"deadline_s": 100, "max_paths": 400000, "query_s": 10}, "thorough": {"deadline_s": 900, "max_paths": 5000000, "query_s": 30}},
          "encoded": ["nano::loss_t::{error, value, vgrad} of every registered loss", "nano::solver_t::minimize + do_minimize of every deterministic solver (line-search solvers with their lsearch0 / lsearchk objects, bundle solvers with the inner QP solver)",
@@ -787,6 +799,14 @@ PROPERTIES["C18"] = {
                      "nano::linear::function_t::do_vgrad, nano::gboost::{bias_function_t, scale_function_t, grads_function_t} (per-thread accumulators, reduction)", "nano::wlearner_t::{fit, predict} of every weak learner (select_iterator_t loops over the pool)",
                      "nano::parallel::pool_t (real: constructor, workers, map, section_t, destructor)",
                      "modelled by the interpreter: std::thread start / join, pthread_mutex_lock / unlock, std::condition_variable::{wait, notify_one, notify_all}, __atomic_futex_unsigned_base::_M_futex_wait_until, __cxa_guard_acquire / release (happens-before edge), pthread_once"]},
+        {"engine": "sbv", "harness": "C18_fit", "sources": ["C18_shared.cpp"], "replay_with": "interpreter",
+         "quick": ["mode=fit;K=2;n=12;batch=10;folds=2", "mode=fit;K=2;n=24;batch=10;folds=2", "mode=fit;model=gboost;K=2;n=12;batch=10;folds=2;patience=3"],
+         "thorough": ["mode=fit;K=2;n=12;batch=10;folds=2", "mode=fit;K=2;n=24;batch=10;folds=2", "mode=fit;K=3;n=24;batch=10;folds=3", "mode=fit;K=2;n=12;batch=10;folds=2;model=ridge", "mode=fit;K=2;n=24;batch=10;folds=2;loss=mae",
+                      "mode=fit;model=gboost;K=2;n=12;batch=10;folds=2;patience=3", "mode=fit;model=gboost;K=2;n=24;batch=10;folds=2;patience=2", "mode=fit;model=gboost;K=3;n=12;batch=10;folds=3;patience=2"],
+         "env": {"SBV_PREEMPT": "1", "SBV_RACE": "1", "SBV_BLOCK_FORKS": "1"}, "env_tier": {"thorough": {"SBV_PREEMPT": "1", "SBV_BLOCK_FORKS": "3"}},
+         "budget": {"quick": {"deadline_s": 110, "max_paths": 400000, "query_s": 10}, "thorough": {"deadline_s": 1500, "max_paths": 5000000, "query_s": 30}},
+         "encoded": ["nano::gboost_model_t::fit end to end (bias, gradients, weak-learner selection among affine / stump / dense-table over the dataset pool, scaling, early stopping, fold averaging, refit)", "nano::linear_t::fit end to end: ml::tune (folds on the tuning pool's workers), ::fit -> flatten_iterator_t (batches on the dataset pool's workers, two submitters), scalar statistics, linear::function_t, solver lbfgs, linear::evaluate, refit, result_t",
+                     "std::put_time of the file loggers stubbed (writes nothing)"]},
         {"engine": "sbv", "harness": "C18_tune", "sources": ["C18_shared.cpp"], "replay_with": "interpreter",
          "quick": ["mode=tune;K=2;n=4;folds=2;g=3;dims=2", "mode=tune;K=2;n=4;folds=2;g=3;dims=1"],
          "thorough": ["mode=tune;K=2;n=4;folds=2;g=3;dims=2", "mode=tune;K=2;n=4;folds=2;g=3;dims=1", "mode=tune;K=3;n=6;folds=3;g=3;dims=2", "mode=tune;K=2;n=4;folds=2;g=3;dims=2;tuner=surrogate", "mode=tune;K=2;n=6;folds=3;g=4;dims=1"],
